@@ -469,7 +469,22 @@ func runC04(c *core.Ctx) {
 	// Morphism(seq...) returns seq itself
 	if fn := c.W.Func("optics", "Morphism"); fn != nil {
 		if p := singlePath(c, "constructor", "optics.Morphism", fn); p != nil {
-			c.Check(paramOf(p.Results[0], fn, 0) && len(calls(p)) == 0, "constructor", "optics.Morphism", fn.Pos(), "the list itself", "Morphism returns %s, expected its argument list", short(p.Results[0]))
+			good := paramOf(p.Results[0], fn, 0) && len(calls(p)) == 0
+			how := "the list itself"
+			if !good {
+				// a private copy of the list, entry by entry: a fresh slice of len(seq) filled by copy(own, seq) - or
+				// append onto an empty / nil slice, or slices.Clone - and nothing else
+				r := p.Results[0]
+				cs := calls(p)
+				if r.Op == "mkslice" && len(r.Args) >= 1 && r.Args[0].Op == "len" && paramOf(r.Args[0].Args[0], fn, 0) && len(cs) == 1 &&
+					cs[0].Callee != nil && cs[0].Callee.Op == "builtin" && cs[0].Callee.Aux == "copy" && len(cs[0].A) == 2 && ir.Same(cs[0].A[0], r) && paramOf(cs[0].A[1], fn, 0) && len(nonLocalStores(p)) == 0 {
+					good, how = true, "a private copy of the list (make + copy)"
+				}
+				if r.Op == "append" && len(r.Args) == 2 && paramOf(r.Args[1], fn, 0) && len(cs) == 0 && (r.Args[0].IsNil() || r.Args[0].Op == "const" && strings.HasPrefix(r.Args[0].Aux, "zero") || r.Args[0].Op == "mkslice" && len(r.Args[0].Args) > 0 && func() bool { k, isK := r.Args[0].Args[0].IntConst(); return isK && k == 0 }()) {
+					good, how = true, "a private copy of the list (append onto an empty slice)"
+				}
+			}
+			c.Check(good, "constructor", "optics.Morphism", fn.Pos(), how, "Morphism returns %s, expected its argument list", short(p.Results[0]))
 		}
 	}
 
